@@ -42,6 +42,8 @@ func runC18(l *core.Ledger) {
 	l.With(map[string]string{"C07-E3": "C18-Z1"}, func() { c07E3(l, r) })
 	l.With(map[string]string{"C07-E4": "C18-Z1"}, func() { c07E4(l, r) })
 	l.With(map[string]string{"C06-P5": "C18-Z1"}, func() { c06P5(l, r) })
+	// a one-way call that does not wait for the send registers no router: nothing would ever remove it
+	l.With(map[string]string{"C06-P3": "C18-Z1"}, func() { c06P3(l, findEntryPoints(l, r, "C06-P3")) })
 	l.With(map[string]string{"C09-W4": "C18-Z1"}, func() { c09W4(l, r) })
 
 	// ---- Z2
